@@ -394,6 +394,9 @@ class FreeEnergy(InterpolatableFunction):
                         if jump > max(stepMoved, 0.1 * fieldScale):
                             break
                         ode.y = phaset[0]
+                        # the re-minimised point has not been tested yet
+                        if spinodalEvent(ode.t, ode.y) <= 0:
+                            break
                     else:
                         # compute Veff
                         potentialEffT = np.asarray(
